@@ -79,6 +79,9 @@ type Case struct {
 	// file: the rescan the call itself triggers reports an error
 	Late bool `json:"first_call_after_a_directory_with_a_bad_file_appeared,omitempty"`
 	// LongN > 0: a request of LongN names: distinct unknown devices, every third one (LongMix) a resolvable one
+	// Pkg: the request goes through the package-level cdi.InjectDevices (default cache configured
+	// with the same directories) instead of the Cache method
+	Pkg     bool `json:"through_the_package_level_function,omitempty"`
 	LongN   int  `json:"long_request_names,omitempty"`
 	LongMix bool `json:"long_request_with_resolvable_names_in_between,omitempty"`
 	idx     []int
@@ -122,8 +125,12 @@ func eval(c Case) hx.Result {
 		fail := func(sig, msg string, exp, act any) hx.Result {
 			return hx.Result{Outcome: "FAIL", Nontrivial: true, Fail: &hx.Failure{Sig: sig, Msg: msg, Case: c, Expected: exp, Actual: act, Rank: int64(len(c.idx))}}
 		}
+		inject := cache.InjectDevices
+		if c.Pkg {
+			inject = cdi.InjectDevices
+		}
 		if c.OCI == "nil" {
-			got, err := cache.InjectDevices(nil, c.Request...)
+			got, err := inject(nil, c.Request...)
 			if err == nil {
 				return fail("nil-oci-accepted", "nil OCI spec accepted", "error", nil)
 			}
@@ -135,7 +142,7 @@ func eval(c Case) hx.Result {
 		spec := shapes[c.OCI]()
 		before := refmodel.CopyOCI(spec)
 		beforeJSON, _ := json.Marshal(spec)
-		got, err := cache.InjectDevices(spec, c.Request...)
+		got, err := inject(spec, c.Request...)
 		if len(wantMiss) == 0 {
 			if err != nil {
 				return fail("resolvable-request-fails", "fully resolvable request failed: "+err.Error(), nil, got)
@@ -195,6 +202,7 @@ func main() {
 		}
 	}
 	cache, _ = cdi.NewCache(cdi.WithSpecDirs(filepath.Join(root, "d0"), filepath.Join(root, "d1")), cdi.WithAutoRefresh(false))
+	_ = cdi.Configure(cdi.WithSpecDirs(filepath.Join(root, "d0"), filepath.Join(root, "d1")), cdi.WithAutoRefresh(false))
 	lateRoot, specRoot = filepath.Join(root, "late"), root
 	_ = os.MkdirAll(lateRoot, 0o755)
 	// sanity of the harness' resolution model against the cache (C01 owns the general rule): a
@@ -285,7 +293,7 @@ func main() {
 		maxLen, len(tokens), len(ociNames))
 	r.Assumptions = []string{"every resolvable device's edits could be applied (type and major specified), so a modification would be visible", "which names resolve in this population is cross-checked against the cache at start (exit 2 on disagreement; that rule is C01's subject)"}
 	// the automatic-refresh flavour: every request of up to two names
-	nLate := 0
+	nLate, nPkg := 0, 0
 	for _, c := range cases {
 		if len(c.idx) <= 2 && (c.OCI == "empty" || c.OCI == "colliding-with-edits" || c.OCI == "nil") {
 			lc := c
@@ -293,7 +301,15 @@ func main() {
 			cases = append(cases, lc)
 			nLate++
 		}
+		// the package-level wrapper (default cache): every request of up to three names
+		if len(c.idx) <= 3 && c.LongN == 0 && (c.OCI == "empty" || c.OCI == "populated" || c.OCI == "nil") {
+			pc := c
+			pc.Pkg = true
+			cases = append(cases, pc)
+			nPkg++
+		}
 	}
+	r.Extra["requests_sent_through_the_package_level_function"] = nPkg
 	r.Extra["requests_sent_as_first_call_after_a_directory_appeared"] = nLate
 	r.ParallelL(int64(len(cases)), func(i int64, l *hx.Local) {
 		res := eval(cases[i])
